@@ -21,7 +21,7 @@ Proof. induction v; try reflexivity. simpl. rewrite IHv2. reflexivity. Qed.
 
 Lemma unpairn_gmap : forall v c, unpairn c (g v) = map g (unpairn c v).
 Proof.
-  induction v as [| | | | |a x IHx y IHy| | | | |]; intro c; try reflexivity.
+  induction v as [| | | | |a x IHx y IHy| | | | | | |]; intro c; try reflexivity.
   change (g (GPair a x y)) with (GPair (f a) (g x) (g y)).
   destruct c as [|c]; [reflexivity|].
   change (unpairn (S c) (GPair (f a) (g x) (g y))) with (g x :: (if is_pair (g y) then unpairn c (g y) else [g y])).
@@ -77,20 +77,20 @@ Proof. induction v; try reflexivity. simpl. rewrite IHv2. reflexivity. Qed.
 
 Lemma vcmp_gmap : forall a b, vcmp (g a) (g b) = vcmp a b.
 Proof.
-  induction a as [| | | | |a0 x IHx y IHy| | | | |]; intro w; destruct w; simpl; try reflexivity; auto.
+  induction a as [| | | | |a0 x IHx y IHy| | | | | | |]; intro w; destruct w; simpl; try reflexivity; auto.
   rewrite IHx, IHy. reflexivity.
 Qed.
 
 Lemma ty_shape_tmap : forall t u, ty_shape_eqb (tmap f t) (tmap f u) = ty_shape_eqb t u.
 Proof.
-  induction t as [a p|a l IHl r IHr|a x IHx|a l IHl r IHr]; intro u; destruct u; simpl; try reflexivity; auto.
+  induction t as [a p|a l IHl r IHr|a x IHx|a l IHl r IHr|a x IHx]; intro u; destruct u; simpl; try reflexivity; auto.
   - rewrite IHl, IHr. reflexivity.
   - rewrite IHl, IHr. reflexivity.
 Qed.
 
 Lemma type_of_gmap : forall v, type_of (g v) = tmap f (type_of v).
 Proof.
-  induction v as [| | | | |a x IHx y IHy|a t|a w IHw|a w IHw rt|a lt w IHw|]; simpl; try reflexivity.
+  induction v as [| | | | |a x IHx y IHy|a t|a w IHw|a w IHw rt|a lt w IHw| | |]; simpl; try reflexivity.
   - rewrite IHx, IHy. reflexivity.
   - rewrite IHw. reflexivity.
   - rewrite IHw. reflexivity.
@@ -101,26 +101,70 @@ Lemma compare_checked_gmap : forall a b, compare_checked (g a) (g b) = compare_c
 Proof.
   intros a b. unfold compare_checked. rewrite !type_of_gmap, ty_shape_tmap, vcmp_gmap. reflexivity.
 Qed.
+
+Lemma anon_tmap : forall t, anon (f d) (tmap f t) = tmap f (anon d t).
+Proof. destruct t; reflexivity. Qed.
+
+Lemma list_class_gmap : forall v,
+  list_class (g v) = option_map (fun p => (f (fst p), tmap f (snd p))) (list_class v).
+Proof. destruct v; reflexivity. Qed.
+
+Lemma build_list_gmap : forall acc t tail,
+  build_list (f d) (tmap f t) (map g acc) (g tail) = option_map g (build_list d t acc tail).
+Proof.
+  induction acc as [|v r IH]; intros t tail; [reflexivity|].
+  simpl. rewrite type_of_gmap, ty_shape_tmap. destruct (ty_shape_eqb t (type_of v)); [|reflexivity].
+  apply (IH t (GCons d t v tail)).
+Qed.
+
+Lemma from_items_gmap : forall acc, from_items (f d) (map g acc) = option_map g (from_items d acc).
+Proof.
+  intro acc. unfold from_items. rewrite <- map_rev. destruct (rev acc) as [|v0 r]; [reflexivity|].
+  simpl map. cbv beta iota. rewrite type_of_gmap, anon_tmap.
+  apply (build_list_gmap acc (anon d (type_of v0)) (GNil d (anon d (type_of v0)))).
+Qed.
 End Nat.
 
 Section Nat2.
 Context {A B : Type} (f : A -> B) (d : A).
 Notation g := (gmap f).
 
-Lemma to_mich_spine_gmap : forall m v,
-  to_mich m (g v) = to_mich m v /\ spine_of m (g v) = spine_of m v.
+Lemma to_mich_cons : forall {X} m (a : X) t (h tl : gval X),
+  to_mich m (GCons a t h tl) = NSeq (to_mich m h :: elems_of m tl).
 Proof.
-  induction v; try (split; reflexivity).
-  - destruct IHv1 as [H1 _]. destruct IHv2 as [H2 S2].
-    assert (Hm : to_mich m (g (GPair a v1 v2)) = to_mich m (GPair a v1 v2)).
-    { change (g (GPair a v1 v2)) with (GPair (f a) (g v1) (g v2)).
+  intros X m a t h tl.
+  assert (H : forall w, (fix els (w : gval X) : list node :=
+                           match w with
+                           | GCons _ _ h' tl' => to_mich m h' :: els tl'
+                           | _ => []
+                           end) w = elems_of m w).
+  { induction w; try reflexivity. simpl. rewrite IHw2. reflexivity. }
+  simpl. rewrite H. reflexivity.
+Qed.
+
+Lemma to_mich_spine_gmap : forall m v,
+  to_mich m (g v) = to_mich m v /\ spine_of m (g v) = spine_of m v /\ elems_of m (g v) = elems_of m v.
+Proof.
+  induction v as [| | | | |a x IHx y IHy|a t|a w IHw|a w IHw rt|a lt w IHw| |a t|a t h IHh tl IHtl];
+    try (repeat split; reflexivity).
+  - destruct IHx as [H1 _]. destruct IHy as (H2 & S2 & _).
+    assert (Hm : to_mich m (g (GPair a x y)) = to_mich m (GPair a x y)).
+    { change (g (GPair a x y)) with (GPair (f a) (g x) (g y)).
       rewrite !to_mich_pair, H1, H2, S2. reflexivity. }
-    split; [exact Hm|].
-    change (g (GPair a v1 v2)) with (GPair (f a) (g v1) (g v2)).
+    split; [exact Hm|]. split; [|reflexivity].
+    change (g (GPair a x y)) with (GPair (f a) (g x) (g y)).
     simpl spine_of. rewrite H1, S2. reflexivity.
-  - destruct IHv as [H _]. split; simpl; rewrite H; reflexivity.
-  - destruct IHv as [H _]. split; simpl; rewrite H; reflexivity.
-  - destruct IHv as [H _]. split; simpl; rewrite H; reflexivity.
+  - destruct IHw as [H _]. repeat split; simpl; rewrite H; reflexivity.
+  - destruct IHw as [H _]. repeat split; simpl; rewrite H; reflexivity.
+  - destruct IHw as [H _]. repeat split; simpl; rewrite H; reflexivity.
+  - destruct IHh as [H1 _]. destruct IHtl as (_ & _ & E2).
+    change (g (GCons a t h tl)) with (GCons (f a) (tmap f t) (g h) (g tl)).
+    assert (Hm : to_mich m (GCons (f a) (tmap f t) (g h) (g tl)) = to_mich m (GCons a t h tl)).
+    { rewrite !to_mich_cons, H1, E2. reflexivity. }
+    split; [exact Hm|]. split.
+    + change (spine_of m (GCons (f a) (tmap f t) (g h) (g tl))) with [to_mich m (GCons (f a) (tmap f t) (g h) (g tl))].
+      rewrite Hm. reflexivity.
+    + simpl elems_of. rewrite H1, E2. reflexivity.
 Qed.
 
 Lemma to_mich_gmap : forall m v, to_mich m (g v) = to_mich m v.
@@ -139,7 +183,7 @@ Qed.
 
 Lemma read_gmap : forall t n, read (tmap f t) n = option_map g (read t n).
 Proof.
-  induction t as [a p|a l IHl r IHr|a u IHu|a l IHl r IHr]; intro n.
+  induction t as [a p|a l IHl r IHr|a u IHu|a l IHl r IHr|a u IHu]; intro n.
   - apply read_prim_gmap.
   - simpl. destruct (pair_args n) as [[|x [|y [|z rest]]]|]; try reflexivity.
     + rewrite IHl, IHr. destruct (read l x) as [vx|]; [|reflexivity]. destruct (read r y) as [vy|]; reflexivity.
@@ -154,6 +198,12 @@ Proof.
     destruct (byte_eqb q P_Left).
     + rewrite IHl. destruct (read l x) as [vx|]; reflexivity.
     + destruct (byte_eqb q P_Right); [|reflexivity]. rewrite IHr. destruct (read r x) as [vx|]; reflexivity.
+  - simpl. destruct n as [z|s0|b|q args an|items]; try reflexivity.
+    induction items as [|x r IHitems]; [reflexivity|].
+    rewrite IHu. destruct (read u x) as [vx|]; [|reflexivity].
+    simpl option_map. cbv beta iota.
+    match goal with |- match ?X with _ => _ end = _ => rewrite IHitems end.
+    match goal with |- context [option_map g ?Y] => destruct Y end; reflexivity.
 Qed.
 
 Lemma step_gmap : forall i s,
@@ -206,7 +256,27 @@ Proof.
   - destruct s as [|v s]; reflexivity.
   - reflexivity.
   - destruct s as [|v s]; [reflexivity|]. destruct v; try reflexivity.
-    simpl. destruct (byte_eqb p T_int); reflexivity.
+    simpl. destruct (zero_test op); [|reflexivity]. destruct (byte_eqb p T_int); reflexivity.
+  - destruct s as [|x s]; [reflexivity|]. destruct x; try reflexivity.
+    destruct s as [|y s]; [reflexivity|]. destruct y; try reflexivity.
+    simpl. destruct (arith op p z p0 z0) as [[r w]|]; reflexivity.
+  - reflexivity.
+  - destruct s as [|e s]; [reflexivity|]. destruct s as [|l s]; [reflexivity|].
+    change (step (f d) (imap f ICons) (map g (e :: l :: s)))
+      with (match list_class (g l) with
+            | Some (a, t) => if ty_shape_eqb t (type_of (g e)) then Ok (GCons a t (g e) (g l) :: map g s) else Reject
+            | None => Reject end).
+    change (step d ICons (e :: l :: s))
+      with (match list_class l with
+            | Some (a, t) => if ty_shape_eqb t (type_of e) then Ok (GCons a t e l :: s) else Reject
+            | None => Reject end).
+    rewrite list_class_gmap. destruct (list_class l) as [[a t]|]; [|reflexivity].
+    simpl option_map. cbv beta iota. simpl fst. simpl snd.
+    rewrite type_of_gmap, ty_shape_tmap. destruct (ty_shape_eqb t (type_of e)); reflexivity.
+  - reflexivity.
+  - reflexivity.
+  - reflexivity.
+  - reflexivity.
   - reflexivity.
   - reflexivity.
   - reflexivity.
@@ -215,45 +285,141 @@ Proof.
   - reflexivity.
 Qed.
 
-Lemma run_gmap : forall i s,
-  run (f d) (imap f i) (map g s) = rmap (map g) (run d i s).
+Lemma of_result_rmap : forall (r : result (gstack (A:=A))),
+  of_result (rmap (map g) r) = omap (map g) (of_result r).
+Proof. destruct r; reflexivity. Qed.
+
+Lemma run_gmap : forall n i s,
+  run (f d) n (imap f i) (map g s) = omap (map g) (run d n i s).
 Proof.
-  induction i as [ | | | | | | | | | | | | | | | | | | | | | | x IHx y IHy | | x IHx y IHy | x IHx y IHy | x IHx y IHy | n x IHx ]; intro s;
-    try (match goal with |- run _ (imap f ?i) _ = _ => exact (step_gmap i s) end).
-  - simpl. rewrite IHx. destruct (run d x s); simpl; [apply IHy | reflexivity].
+  induction n as [|n IHn]; [reflexivity|].
+  induction i as [ | | | | | | | | | | | | | | | | | | | | | | | | | x IHx y IHy | | x IHx y IHy | x IHx y IHy | x IHx y IHy | x IHx y IHy | k x IHx | x IHx | x IHx | x IHx ]; intro s;
+    try (match goal with |- run _ _ (imap f ?i) _ = _ =>
+           change (of_result (step (f d) (imap f i) (map g s)) = omap (map g) (of_result (step d i s)));
+           rewrite step_gmap; apply of_result_rmap end).
+  - change (match run (f d) (S n) (imap f x) (map g s) with Done s' => run (f d) (S n) (imap f y) s' | o => o end
+            = omap (map g) (match run d (S n) x s with Done s' => run d (S n) y s' | o => o end)).
+    rewrite IHx. destruct (run d (S n) x s); simpl; [apply IHy | reflexivity | reflexivity].
   - reflexivity.
   - destruct s as [|v s]; [reflexivity|]. destruct v; try reflexivity.
-    simpl. destruct b; [apply IHx | apply IHy].
+    destruct b; [apply IHx | apply IHy].
   - destruct s as [|v s]; [reflexivity|]. destruct v; try reflexivity.
     + apply IHx.
     + apply (IHy (v :: s)).
   - destruct s as [|v s]; [reflexivity|]. destruct v; try reflexivity.
     + apply (IHx (v :: s)).
     + apply (IHy (v :: s)).
-  - simpl. rewrite map_length. destruct (length s <? n); [reflexivity|].
-    rewrite skipn_map, IHx. destruct (run d x (skipn n s)); simpl; [|reflexivity].
+  - destruct s as [|v s]; [reflexivity|]. destruct v; try reflexivity.
+    + apply IHy.
+    + apply (IHx (v1 :: v2 :: s)).
+  - change (run (f d) (S n) (imap f (IDip k x)) (map g s))
+      with (if length (map g s) <? k then Fail
+            else match run (f d) (S n) (imap f x) (skipn k (map g s)) with
+                 | Done s' => Done (firstn k (map g s) ++ s') | o => o end).
+    change (run d (S n) (IDip k x) s)
+      with (if length s <? k then Fail
+            else match run d (S n) x (skipn k s) with Done s' => Done (firstn k s ++ s') | o => o end).
+    rewrite map_length. destruct (length s <? k); [reflexivity|].
+    rewrite skipn_map, IHx. destruct (run d (S n) x (skipn k s)); simpl; try reflexivity.
     rewrite firstn_map, map_app. reflexivity.
+  - (* ITER *)
+    destruct s as [|l s]; [reflexivity|].
+    change (run (f d) (S n) (imap f (IIter x)) (map g (l :: s)))
+      with ((fix iter (l : gval B) (s : gstack) {struct l} : outcome B :=
+               match l with
+               | GNil _ _ => Done s
+               | GCons _ _ h tl => match run (f d) (S n) (imap f x) (h :: s) with Done s1 => iter tl s1 | o => o end
+               | _ => Fail
+               end) (g l) (map g s)).
+    change (run d (S n) (IIter x) (l :: s))
+      with ((fix iter (l : gval A) (s : gstack) {struct l} : outcome A :=
+               match l with
+               | GNil _ _ => Done s
+               | GCons _ _ h tl => match run d (S n) x (h :: s) with Done s1 => iter tl s1 | o => o end
+               | _ => Fail
+               end) l s).
+    revert s. induction l as [| | | | | | | | | | |a t|a t h IHh tl IHtl]; intro st; try reflexivity.
+    change (g (GCons a t h tl)) with (GCons (f a) (tmap f t) (g h) (g tl)). cbv beta iota.
+    change (g h :: map g st) with (map g (h :: st)).
+    rewrite (IHx (h :: st)). destruct (run d (S n) x (h :: st)); simpl; try reflexivity. apply IHtl.
+  - (* MAP *)
+    destruct s as [|l s]; [reflexivity|].
+    change (run (f d) (S n) (imap f (IMap x)) (map g (l :: s)))
+      with ((fix iter (l : gval B) (acc : list (gval B)) (s : gstack) {struct l} : outcome B :=
+               match l with
+               | GNil _ _ =>
+                   match acc with
+                   | [] => Done (l :: s)
+                   | _ => match from_items (f d) acc with Some r => Done (r :: s) | None => Fail end
+                   end
+               | GCons _ _ h tl =>
+                   match run (f d) (S n) (imap f x) (h :: s) with
+                   | Done (r :: s1) => iter tl (r :: acc) s1
+                   | Done [] => Fail
+                   | o => o
+                   end
+               | _ => Fail
+               end) (g l) (map g []) (map g s)).
+    change (run d (S n) (IMap x) (l :: s))
+      with ((fix iter (l : gval A) (acc : list (gval A)) (s : gstack) {struct l} : outcome A :=
+               match l with
+               | GNil _ _ =>
+                   match acc with
+                   | [] => Done (l :: s)
+                   | _ => match from_items d acc with Some r => Done (r :: s) | None => Fail end
+                   end
+               | GCons _ _ h tl =>
+                   match run d (S n) x (h :: s) with
+                   | Done (r :: s1) => iter tl (r :: acc) s1
+                   | Done [] => Fail
+                   | o => o
+                   end
+               | _ => Fail
+               end) l [] s).
+    generalize (@nil (gval A)) as acc. revert s.
+    induction l as [| | | | | | | | | | |a t|a t h IHh tl IHtl]; intros st acc; try reflexivity.
+    + change (g (GNil a t)) with (GNil (f a) (tmap f t)). cbv beta iota.
+      destruct acc as [|r0 acc]; [reflexivity|].
+      change (map g (r0 :: acc)) with (g r0 :: map g acc). cbv beta iota.
+      change (g r0 :: map g acc) with (map g (r0 :: acc)).
+      rewrite from_items_gmap. destruct (from_items d (r0 :: acc)); reflexivity.
+    + change (g (GCons a t h tl)) with (GCons (f a) (tmap f t) (g h) (g tl)). cbv beta iota.
+      change (g h :: map g st) with (map g (h :: st)).
+      rewrite (IHx (h :: st)). destruct (run d (S n) x (h :: st)) as [[|r s1]| |]; simpl; try reflexivity.
+      apply (IHtl s1 (r :: acc)).
+  - (* LOOP *)
+    destruct s as [|v s]; [reflexivity|]. destruct v; try reflexivity.
+    destruct b; [|reflexivity].
+    change (match run (f d) (S n) (imap f x) (map g s) with Done s1 => run (f d) n (imap f (ILoop x)) s1 | o => o end
+            = omap (map g) (match run d (S n) x s with Done s1 => run d n (ILoop x) s1 | o => o end)).
+    rewrite IHx. destruct (run d (S n) x s); simpl; try reflexivity. apply (IHn (ILoop x)).
 Qed.
 
-Lemma exec_gmap : forall p s,
-  exec (f d) (map (imap f) p) (map g s) = rmap (map g) (exec d p s).
+Lemma exec_gmap : forall n p s,
+  exec (f d) n (map (imap f) p) (map g s) = omap (map g) (exec d n p s).
 Proof.
-  induction p as [|i p IH]; intro s; [reflexivity|].
-  simpl. rewrite run_gmap. destruct (run d i s); simpl; [apply IH | reflexivity].
+  intros n. induction p as [|i p IH]; intro s; [reflexivity|].
+  simpl. rewrite run_gmap. destruct (run d n i s); simpl; [apply IH | reflexivity | reflexivity].
 Qed.
 End Nat2.
 
 (* ---- erasure ------------------------------------------------------------------------------------ *)
 Definition er : ann -> unit := fun _ => tt.
 
-Lemma exec_erase : forall p s,
-  exec tt (map (imap er) p) (map erase s) = rmap (map erase) (exec no_ann p s).
+Lemma exec_erase : forall n p s,
+  exec tt n (map (imap er) p) (map erase s) = omap (map erase) (exec no_ann n p s).
 Proof. intros. apply (exec_gmap er no_ann). Qed.
 
-Lemma exec_twins : forall p p' s s',
+Lemma exec_twins : forall n p p' s s',
   map (imap er) p = map (imap er) p' -> map erase s = map erase s' ->
-  rmap (map erase) (exec no_ann p s) = rmap (map erase) (exec no_ann p' s').
-Proof. intros p p' s s' Hp Hs. rewrite <- !exec_erase, Hp, Hs. reflexivity. Qed.
+  omap (map erase) (exec no_ann n p s) = omap (map erase) (exec no_ann n p' s').
+Proof. intros n p p' s s' Hp Hs. rewrite <- !exec_erase, Hp, Hs. reflexivity. Qed.
+
+(* fuel: a run that finishes keeps its result with more fuel is not needed for blindness; what matters is that the
+   twin needs exactly the same fuel *)
+Lemma exec_same_fuel : forall {A B} (f : A -> B) d n p s,
+  exec d n p s <> OutOfFuel -> exec (f d) n (map (imap f) p) (map (gmap f) s) <> OutOfFuel.
+Proof. intros A B f d n p s H. rewrite exec_gmap. destruct (exec d n p s); simpl; congruence. Qed.
 
 Lemma pack_shape : forall {A} (a : A) (x y : gval A),
   to_mich Optimized (GPair a x y) =
